@@ -44,13 +44,26 @@ func LeafK(data []byte, off int, name string, maxKind uint8) int {
 	case k == 3:
 		sym.Assume(off+1 <= len(data))
 		sym.Assume(data[off] >= 0x20 && data[off] < 0x38)
-	default:
+	case k == 4:
 		l = 2
 		sym.Assume(off+2 <= len(data))
 		sym.Assume(data[off] == 0x41)
+	default: // 5: a two-element array of small unsigned integers (the shape of a legacy output)
+		l = 3
+		sym.Assume(off+3 <= len(data))
+		sym.Assume(data[off] == 0x82 && data[off+1] < 0x18 && data[off+2] < 0x18)
+		Tie(data, off+1, 1)
+		Tie(data, off+2, 1)
 	}
 	Tie(data, off, l)
 	return l
+}
+
+// Fixed is LeafK with one fixed kind.
+func Fixed(data []byte, off int, name string, kind uint8) int {
+	k := sym.U8(name + "_form")
+	sym.Assume(k == kind)
+	return LeafK(data, off, name, kind)
 }
 
 // Head forms of a CBOR array/map head: 0 immediate, 1..4 = 1/2/4/8-byte argument, 5 indefinite.
@@ -98,4 +111,27 @@ func PutHead(data []byte, off int, mt byte, form int, n int) int {
 		}
 	}
 	return hl
+}
+
+// Range is a byte range [Off, Off+Len) of a ghost item.
+type Range struct{ Off, Len int }
+
+// PutLeafArray constrains data[off:] to spell an array (head in the given form) of n leaf
+// items (LeafK kinds 0..maxKind), with the break byte for the indefinite form, ties the item
+// extents and the array's own extent, and returns the array's range and its items' ranges.
+func PutLeafArray(data []byte, off int, form int, n int, name string, maxKind uint8) (Range, []Range) {
+	start := off
+	off += PutHead(data, off, 4, form, n)
+	items := make([]Range, n)
+	for i := 0; i < n; i++ {
+		l := LeafK(data, off, name+string(rune('0'+i)), maxKind)
+		items[i] = Range{off, l}
+		off += l
+	}
+	if form == FormIndef {
+		sym.Assume(off+1 <= len(data) && data[off] == 0xff)
+		off++
+	}
+	Tie(data, start, off-start)
+	return Range{start, off - start}, items
 }
